@@ -421,3 +421,43 @@ def g5_property_called(ctx: Ctx, scope, rule="G5"):
                                ctx.prog.loc(f, node.iter), it)
         ctx.touch(f)
     return n
+
+
+# --------------------------------------------------------------------------- G8
+def g8_derived_state(ctx: Ctx, classes, rule="G8"):
+    """`self.A = f(self.p)` in __init__ (p a settable property, A plain attribute): p's setter as resolved on the
+    class must re-assign self.A with a term of the same normal form."""
+    from . import terms, nf
+    n = 0
+    for c in classes:
+        init = c.methods.get("__init__")
+        if init is None:
+            continue
+        for st in strip_doc(init.node.body):
+            if not (isinstance(st, ast.Assign) and len(st.targets) == 1 and is_self_attr(st.targets[0])):
+                continue
+            a = st.targets[0].attr
+            if a.startswith("__") or c.prop_owner(a) is not None:
+                continue
+            props = sorted({x.attr for x in ast.walk(st.value) if is_self_attr(x) and isinstance(x.ctx, ast.Load)
+                            and c.find_prop(x.attr, "set") is not None and c.find_prop(x.attr, "get") is not None})
+            for p in props:
+                setter = c.find_prop(p, "set")
+                n += 1
+                b0 = terms.Builder(ctx.prog, init, inline_depth=0)
+                want = b0.t(st.value)
+                stores = [s for s in walk_own(setter.node) if isinstance(s, ast.Assign) and any(is_self_attr(t, a) for t in s.targets)]
+                ok = False
+                got = None
+                for s in stores:
+                    b1 = terms.Builder(ctx.prog, setter, inline_depth=0)
+                    got = b1.t(s.value)
+                    if nf.equal(want, got):
+                        ok = True
+                ctx.ob(rule, f"{c.name}.{a} derived from {p}", ok,
+                       f"constructor computes self.{a} = {nf.show(want)[:120]}; setter {setter.short} "
+                       + ("recomputes the same term" if ok else
+                          (f"recomputes {nf.show(got)[:120]}" if got is not None else f"never re-assigns self.{a}, so it keeps the value for the old {p}")),
+                       setter.where, st)
+                ctx.touch(init, setter)
+    return n
